@@ -1,4 +1,4 @@
-CONSTANTS TMAX = 1  MAXE = 2  MAXW = 0  ITERS = 2  KEYS = {0}  OPENEND = TRUE
+CONSTANTS TMAX = 1  MAXE = 2  MAXW = 0  ITERS = 2  KEYS = {0}  FIX_F7 = FALSE
 SPECIFICATION Spec
 INVARIANTS C13_TxnQuiet
 CHECK_DEADLOCK FALSE
